@@ -414,7 +414,30 @@ def _calls_sniffer(f, test):
     sn = getattr(repo, "_sniffer", None)
     if sn is None:
         sn = repo._sniffer = find_sniffer(repo, "R03.6")
-    return any(isinstance(c, ast.Call) and same_func(repo.resolve_call(f, c), sn) for c in ast.walk(test))
+    return any(isinstance(c, ast.Call) and same_func(repo.resolve_call(f, c), sn) for c in ast.walk(sniff_test(f, test)))
+
+
+def sniff_test(f, test):
+    """the test itself, or - for a test on a local that holds the sniffer's answer (`gz = is_file_gzipped(p); if gz:`) -
+    the test with that local written out (the local is bound once, to a call)"""
+    import copy
+
+    names = [n for n in ast.walk(test) if isinstance(n, ast.Name)]
+    if not names:
+        return test
+    defs = {}
+    for st in walk_own(f.node):
+        if isinstance(st, ast.Assign) and len(st.targets) == 1 and isinstance(st.targets[0], ast.Name):
+            defs.setdefault(st.targets[0].id, []).append(st.value)
+    env = {k: v[0] for k, v in defs.items() if len(v) == 1 and isinstance(v[0], ast.Call) and k not in f.params}
+    if not any(n.id in env for n in names):
+        return test
+
+    class R(ast.NodeTransformer):
+        def visit_Name(self, n):
+            return copy.deepcopy(env[n.id]) if n.id in env and isinstance(n.ctx, ast.Load) else n
+
+    return ast.fix_missing_locations(R().visit(copy.deepcopy(test)))
 
 
 def opener_shape(f):
@@ -490,5 +513,8 @@ def r03_6(ctx, run, info):
     ok_plain = m1[0] == m2[0] == "open" and all(x in ("r", "rt") for x in (m1[1] or ("r",))) and all(x in ("r", "rt") for x in (m2[1] or ("r",)))
     ctx.check(ok_gz and ok_plain, "R03.6", run.where(n), "the indexed file is opened exactly like the reader that later seeks the stored offsets: sniffed, BGZFile(path, 'rb') for compressed input, text-mode open otherwise", key_of(run, f"opener-agreement:{sig(a.value)}/{m1}"), index=(sig(a.value), m1), reader=(sig(ra.value), m2))
     # both sniff the same path they open
-    ok_path = norm(n.test.args[0]) == norm(a.value.args[0]) == norm(b.value.args[0]) if isinstance(n.test, ast.Call) else False
+    nt = sniff_test(run, n.test)  # the test, with a local that holds the sniffer's answer written out
+    ok_path = norm(nt.args[0]) == norm(a.value.args[0]) == norm(b.value.args[0]) if isinstance(nt, ast.Call) and nt.args else False
+    if not isinstance(nt, ast.Call):
+        raise AnalysisError("R03.6", run.where(n), f"cannot read which path the sniffing test `{norm(n.test)[:50]}` looks at")
     ctx.check(ok_path, "R03.6", run.where(n), "the path sniffed is the path opened", key_of(run, "sniff-path"))
